@@ -30,6 +30,16 @@ def classify(src, opts, pm, orig, detail):
         return None
     binds_object = any((isinstance(n, ast.ClassDef) and n.name == 'object') or (isinstance(n, ast.Name) and n.id == 'object' and isinstance(n.ctx, ast.Store)) or
                        (isinstance(n, ast.alias) and (n.asname or n.name) == 'object') or (isinstance(n, ast.arg) and n.arg == 'object') for n in ast.walk(tree))
+    object_not_last = any(isinstance(n, ast.ClassDef) and any(isinstance(b, ast.Name) and b.id == 'object' for b in n.bases[:-1]) for n in ast.walk(tree))
+    if object_not_last and opts.get('remove_object_base'):
+        o2 = dict(opts)
+        o2['remove_object_base'] = False
+        try:
+            out2 = pm.minify(src, **common.opts_to_kwargs(o2, pm))
+            if not observe.same(orig, observe.observe(out2)):
+                return 'C01.object_base.mro_conflict'
+        except Exception:
+            pass
     if binds_object and opts.get('remove_object_base'):
         o2 = dict(opts)
         o2['remove_object_base'] = False
